@@ -171,7 +171,7 @@ def run(ctx):
     for ci in range(n_cases):
         sigma = 1 + ci % 3 if ci % 11 else rng.choice([1, 1, 2])
         nx, ny = shapes[(ci // 3) % len(shapes)]
-        pattern = (0, 0, 0, 0) if ci % 4 == 0 else patterns[ci % 16]
+        pattern = (0, 0, 0, 0) if ci % 4 == 0 else (1, 1, 1, 1) if ci % 16 == 1 else patterns[ci % 16]
         kind = ["unit", "wide", "const"][(ci // 2) % 3]
         x2 = gen_design(rng, nx, ny, kind)
         pads = gen_pads(rng, nx, ny, pattern, kind, const=(float(x2[0, 0]) if kind == "const" and ci % 2 else None))
